@@ -1,0 +1,11 @@
+//go:build verif
+
+package keeper
+
+// Contracts for the deductive verifier in /verif (govc). Comment-only; compiled only with -tags verif.
+
+//@ contract (*Keeper).getBlockDelay
+//@   let m = k.GetParams(ctx).MaxExpectedTimePerBlock
+//@   let d = connection.DelayPeriod
+//@   ensures zero: m == 0 ==> result == 0
+//@   ensures ceil: m != 0 ==> result == (d + m - 1) / m
